@@ -82,9 +82,11 @@ Print Assumptions C02_pool_is_source.
    any optional parts and stuffing bytes of any value, fills the rest), payload_unit_start on the first packet only,
    continuity counters consecutive per PID; the stream is ANY interleaving of the PIDs' packet sequences in which a
    program-map PID carries packets only after a PAT announcing it was completed, with filler packets (transport error
-   indicator, adaptation field only, null packets) anywhere.  Scoping S5 (DESIGN.md) is in the model: the first packet
-   of a PSI unit reaches the first byte of the unit's last section, and the packet holding the last byte of the last
-   section is the unit's last packet.  SP is the set of sections the section parser must decode (C13's domain):
+   indicator, adaptation field only, null packets) anywhere.  Scoping S5 (DESIGN.md) is in the model in its weakest
+   form: no packet of a PSI unit but the last ends exactly on a section boundary or in the 0xFF tail (psi_mid: it ends
+   inside the pointer_field filler or strictly inside a section) - the accumulator takes a payload that ends on a
+   section boundary for a complete unit and the remaining sections are lost (notes/c02_s5_section_boundary_test.go.txt);
+   units of several sections spanning any number of packets are covered.  SP is the set of sections the section parser must decode (C13's domain):
    C02_sections_c13 discharges the premise for PAT, PMT, SDT, NIT, EIT and TOT sections.
    demux_all = successive NextData calls until ErrNoMorePackets (Proofs/RoundTripRun.v, as in C01).
    Proofs: Proofs/StreamUnits.v (one unit), Proofs/StreamData.v (the stream). *)
@@ -155,22 +157,22 @@ Proof. exact c13_sections_parse. Qed.
 Print Assumptions C02_sections_c13.
 
 (* the stream model is inhabited by every admissible cut: any unit, cut into pieces of at most 184 bytes (for a PSI
-   unit: S5), carried by the packets built around the pieces with stuffing of any value, is a carriage *)
+   unit: none but the last ending on a section boundary, S5), carried by the packets built around the pieces with stuffing of any value, is a carriage *)
 Theorem C02_every_cut_is_a_carriage : forall (SP : list Z -> PSISection -> Prop) x cc u sizes sv,
   0 <= x < 2 ^ 13 -> Base.Bits.byte_ok sv -> unit_ok SP u ->
   cut_ok_b u (cut sizes (unit_bytes u)) = true -> carried_ok SP x (carry x cc u sizes sv).
 Proof. exact carry_ok. Qed.
 Print Assumptions C02_every_cut_is_a_carriage.
 
-(* Example: PAT (PID 0) and PMT (PID 4096, pointer_field 2, cut into three packets of 8 / 10 / 11 bytes with
-   adaptation-field stuffing of value 0x42), a video PID 256 carrying two PES (PTS, CRC, pack header, header stuffing;
+(* Example: PAT (PID 0, two sections and a 0xFF tail, cut in the middle of the first section) and PMT (PID 4096,
+   pointer_field 2, cut into three packets of 8 / 10 / 11 bytes with adaptation-field stuffing of value 0x42), a video PID 256 carrying two PES (PTS, CRC, pack header, header stuffing;
    the first cut into two packets) and an audio PID 257 carrying one bounded PES, interleaved, with a null packet, an
    adaptation-field-only packet and a packet with the transport_error_indicator in between: the stream is well formed,
-   and the model run on its 11 x 188 bytes (vm_compute) returns the PAT, the PMT when its third packet is read, the
-   first video PES when the second starts, and at end of stream the second video PES and the audio PES *)
+   and the model run on its 12 x 188 bytes (vm_compute) returns the two PAT sections, the PMT when its third packet is
+   read, the first video PES when the second starts, and at end of stream the second video PES and the audio PES *)
 Example C02_data_example :
   wf_stream c13_sections ex_stream /\
   demux_all (StreamSpec.stream_bytes ex_stream) = map Ok (expected ex_stream) /\
-  map DemuxerData_PID (expected ex_stream) = [0; 4096; 256; 256; 257] /\
-  length (StreamSpec.stream_bytes ex_stream) = (11 * 188)%nat.
+  map DemuxerData_PID (expected ex_stream) = [0; 0; 4096; 256; 256; 257] /\
+  length (StreamSpec.stream_bytes ex_stream) = (12 * 188)%nat.
 Proof. split; [exact ex_stream_wf|]. vm_compute. repeat split; reflexivity. Qed.
